@@ -205,6 +205,9 @@ func oneRound(seed int64, db *badger.DB, round int) {
 		}))
 	s.Handle("ms.$id", res.Model, store.Handler{Store: ms})
 	s.Handle("bs.$id", res.Model, store.Handler{Store: bs, Transformer: store.IDTransformer("id", nil)})
+	// collections of one handler, written to by different goroutines (one id each)
+	bsc := badgerstore.NewStore(db).SetType([]string{}).SetPrefix(fmt.Sprintf("c%d", round))
+	s.Handle("bc.$id", res.Collection, store.Handler{Store: bsc, Transformer: store.IDTransformer("id", nil)})
 	s.Handle("bsq", res.Collection, store.QueryHandler{QueryStore: qs, Transformer: store.IDToRIDCollectionTransformer(func(id string) string { return "test.bs." + id }),
 		QueryRequestHandler: func(rname string, pp map[string]string, q url.Values) (url.Values, string, error) {
 			if os.Getenv("VERIF_RACER_DEBUG") != "" {
@@ -393,6 +396,19 @@ func oneRound(seed int64, db *badger.DB, round int) {
 				if i >= 40 {
 					// after the opening burst: paced, so that index maintenance and query events happen all through the life
 					time.Sleep(time.Duration(100+r.Intn(300)) * time.Microsecond)
+				}
+				if i%3 == 0 {
+					// this goroutine's own collection: the values differ from write to write
+					cid := fmt.Sprintf("col%d", k)
+					t := bsc.Write(cid)
+					v := []string{"a", "b", "c", "d", "e", "f"}[:1+r.Intn(6)]
+					if r.Intn(2) == 0 {
+						v = append([]string{fmt.Sprint("x", i)}, v...)
+					}
+					if t.Create(v) != nil {
+						t.Update(v)
+					}
+					t.Close()
 				}
 				id := fmt.Sprint(1 + r.Intn(3))
 				switch r.Intn(4) {
